@@ -358,6 +358,22 @@ fn main() {
                         inners[i][0] = rng.below(200);
                         tag = "inner-count-felt-garbage(not checked)".into();
                     }
+                    6 => {
+                        // (asset, fee) pairs that collide under a packed comparison asset * RADIX + fee for plausible radices:
+                        // both real, same block, asset AND fee differ
+                        if m >= 2 {
+                            let radix = *rng.pick(&[10_000u64, 10_001, 16_384, 65_536, 1 << 32]);
+                            let i = rng.below(m as u64) as usize;
+                            let j = (i + 1 + rng.below(m as u64 - 1) as usize) % m;
+                            for (k, (a, f)) in [(i, (asset, radix)), (j, (asset + 1, 0))] {
+                                inners[k][1] = a;
+                                inners[k][2] = f;
+                                inners[k][3..7].copy_from_slice(&u.blocks[blk].0);
+                                inners[k][7] = u.blocks[blk].1;
+                            }
+                            tag = "asset-fee-packed-collision".into();
+                        }
+                    }
                     _ => {}
                 }
                 let mut pw = PartialWitness::new();
